@@ -234,8 +234,43 @@ def _pair_grid(ctx):
     return it
 
 
+def check_identity(case):
+    """The same abbreviation written in the string and given as TO_TIMEZONE (or TIMEZONE) must mean the same offset: the
+    wall clock comes back unchanged.  Covers every abbreviation of the table, including names listed with several offsets."""
+    name, role = case["name"], case["role"]
+    d = gen.to_dt(case["local"])
+    s = "%04d-%02d-%02d %02d:%02d:%02d %s" % (d.year, d.month, d.day, d.hour, d.minute, d.second, name)
+    settings = {role: name}
+    if case["aware"] is not None:
+        settings["RETURN_AS_TIMEZONE_AWARE"] = case["aware"]
+    cls = ["identity", "identity:" + role]
+    got = DateDataParser(languages=["en"], settings=settings).get_date_data(s).date_obj
+    key = ("identity", name, role)
+    if got is None:
+        return {"ok": True, "skip": "the abbreviation is not understood in this string (C11's subject)", "cls": cls}
+    if got.replace(tzinfo=None) != d:
+        return {"ok": False, "bucket": "identity:%s:%s" % (role, name), "detail": "%r with %r -> %r: the same zone name means two different offsets"
+                % (s, settings, got), "key": key, "cls": cls}
+    return {"ok": True, "key": key, "cls": cls}
+
+
+def _identity_cases(ctx):
+    def it(shard, nshards):
+        offs, abbrs, conflicts = vtz.source_tables()
+        names = sorted(n for n in abbrs if n.isascii())
+        for i, n in enumerate(names):
+            if i % nshards != shard:
+                continue
+            for role in ("TO_TIMEZONE", "TIMEZONE"):
+                h = derive_seed(ctx.seed, n, role)
+                yield {"name": n, "role": role, "aware": [None, True, False][h % 3],
+                       "local": [1975 + h % 50, 1 + (h >> 8) % 12, 1 + (h >> 16) % 28, (h >> 24) % 24, (h >> 32) % 60, 0, 0]}
+    return it
+
+
 def stages(ctx):
-    out = [Stage("pairs", "hyp", strategy=cases(), examples=ctx.n(40000, 600000))]
+    out = [Stage("same_name_identity", "enum", cases=_identity_cases(ctx), exhaustive=True, check=check_identity),
+           Stage("pairs", "hyp", strategy=cases(), examples=ctx.n(40000, 600000))]
     if not ctx.quick:
         out.append(Stage("pair_grid", "enum", cases=_pair_grid(ctx), exhaustive=True))
     return out
